@@ -318,7 +318,7 @@ fn cli_defaults(ctx: &mut Ctx) {
         probes.push(d.clone());
         probes.push(d.trim_matches('"').to_string());
     }
-    probes.extend(["vec![]", "[]", "Vec::new()", "None", "null", "default", "*", "removal-marker"].iter().map(|s| s.to_string()));
+    probes.extend(["vec![]", "[]", "Vec::new()", "None", "null", "default", "*", "removal-marker", "a,b", "feature1,feature10", "a;b", "o:o"].iter().map(|s| s.to_string()));
     probes.sort();
     probes.dedup();
     let mut n = 0u64;
@@ -346,7 +346,7 @@ fn cli_defaults(ctx: &mut Ctx) {
         }
     }
     // (2) repeated target options: exact membership
-    let sets: Vec<Vec<&str>> = vec![vec!["a"], vec!["a", "feature1"], vec!["A", "ab", ""], vec!["vec![]"], vec!["feature10", "a "]];
+    let sets: Vec<Vec<&str>> = vec![vec!["a"], vec!["a", "feature1"], vec!["A", "ab", ""], vec!["vec![]"], vec!["feature10", "a "], vec!["a,b"], vec!["feature1,feature10", "b"], vec!["a;b", "o:o"]];
     for set in &sets {
         let args: Vec<String> = set.iter().map(|t| format!("--removal-marker-target-name={t}")).collect();
         for q in &probes {
